@@ -15,7 +15,7 @@ RULE = ("(1) symbol audit, exhaustive over object files x configurations {x86-64
         "flags -fno-builtin -fno-threadsafe-statics -Os}: every undefined symbol of every object must be a C memory primitive, a compiler arithmetic helper or "
         "defined inside the library; (2) write-protection monitor: after loading, every writable segment of the library image is made read-only and the complete "
         "quick call alphabets of the other properties are executed - any store to library-global state faults; (3) schedule exploration on the real code: 2 real "
-        "threads (3 in the thorough tier), each running one operation of a 32-entry menu covering every source file, on shared const inputs and distinct outputs; "
+        "threads (3 in the thorough tier), each running one operation of a 45-entry menu covering every source file (field, curve, pairing, sampling, WKD-IBE and LQ-IBE operations; the caller's hash callback is an explicit scheduling point), on shared const inputs and distinct outputs; "
         "scheduling points = compiler-inserted function-entry hooks at call depth <= D; ALL schedules with <= B preemptions are executed (B iterated 0,1,2) and each "
         "thread's output must equal the sequential result; recorded schedules replay deterministically; (4) free-running ThreadSanitizer pass of the same operation "
         "bodies on 16 threads. states = executions (schedules); transitions = scheduling points visited; non-trivial = schedule with at least one preemption")
@@ -30,8 +30,13 @@ AUDIT_CONFIGS = ["asm", "c64", "c32", "emb64", "emb32"]
 
 MENU_SMALL = ["fq_inverse", "fq_sqrt", "fr_sqrt", "fq2_multiply", "fq2_sqrt", "fq6_multiply", "fq12_multiply", "fq12_inverse", "cyclotomic_square", "g1_add", "g1_double",
               "g2_add", "g2_double", "wnaf_recode", "decompose", "zp_from_hash"]
-MENU_MEDIUM = ["g1_multiply_short", "g2_multiply_short", "gt_multiply_short", "g1_encode_decode", "hash_to_g1", "hash_to_id", "g1_random"]
-MENU_LARGE = ["g1_multiply", "g2_multiply", "gt_multiply", "g2_encode_decode", "hash_to_g2", "pairing", "final_exponentiation", "wkdibe_encrypt", "wkdibe_decrypt"]
+MENU_MEDIUM = ["g1_multiply_short", "g2_multiply_short", "gt_multiply_short", "g1_encode_decode", "hash_to_g1", "hash_to_id", "g1_random", "lqibe_keygen"]
+MENU_LARGE = ["g1_multiply", "g2_multiply", "gt_multiply", "g2_encode_decode", "hash_to_g2", "pairing", "final_exponentiation", "wkdibe_encrypt", "wkdibe_decrypt",
+              "g2_random", "gt_random", "prepared_pairing", "g2_prepare", "wkdibe_keygen", "wkdibe_qualifykey", "wkdibe_sign", "wkdibe_verify",
+              "lqibe_encrypt0", "lqibe_decrypt0"]
+# pairs of the same operation on DIFFERENT inputs (a shared scratch object filled with the same bytes by both threads would go unnoticed)
+EXTRA_PAIRS = [("lqibe_encrypt0", "lqibe_encrypt1"), ("lqibe_decrypt0", "lqibe_decrypt1"), ("lqibe_encrypt0", "lqibe_decrypt1"), ("wkdibe_keygen", "wkdibe_qualifykey"),
+               ("wkdibe_sign", "wkdibe_keygen"), ("g2_multiply", "wkdibe_keygen"), ("g2_random", "g2_multiply")]
 WP_CHECKS_QUICK = ["C01", "C04", "C05", "C07", "C08", "C09", "C10", "C12", "C13", "C16"]
 WP_CHECKS_THOROUGH = WP_CHECKS_QUICK + ["C02", "C06", "C11", "C14", "C15", "C18", "C19"]
 
@@ -196,6 +201,8 @@ def pairs_for(tier):
             for b in large:
                 out.append((a, b, 1, 1))
             out.append((a, a, 1, 2))
+    for a, b in EXTRA_PAIRS:
+        out.append((a, b, 1, 1))
     seen = {}
     for t in out:
         seen.setdefault((t[0], t[1]), t)
